@@ -4,14 +4,15 @@ namespace AsmjitVerif.C06S
 open AsmjitVerif.CallConv AsmjitVerif.Shuffle AsmjitVerif.Machine
 
 theorem emitMove_ok (p : Params) (hy : Hyp p) (e : Emit) (M : State) (hw : WF p e M) (i outId : Nat) (hi : i < p.n)
-    (hnd : (e.ctx.var i).done = false) (ho : outId < 32)
+    (hreg : (e.ctx.var i).cur.isReg = true) (hnd : (e.ctx.var i).done = false) (ho : outId < 32)
     (hfree : physAt e.ctx (groupOf (e.ctx.var i).out.regType) outId = none ∨ outId = (e.ctx.var i).cur.regId)
     (hsw : hasSwap p.cfg.arch (groupOf (e.ctx.var i).out.regType) = true → outId = (e.ctx.var i).out.regId)
     (e' : Emit) (h : emitMove p.cfg e i outId = .ok e') :
     ∃ M', WF p e' M' ∧ (∀ j, j < p.n → (e.ctx.var j).done = true → (e'.ctx.var j).done = true) ∧
-          ((e'.ctx.var i).done = decide (outId = (e.ctx.var i).out.regId)) := by
-  have hv := hw.var i hi
-  generalize hvdef : e.ctx.var i = v at hv hnd hfree hsw
+          ((e'.ctx.var i).done = decide (outId = (e.ctx.var i).out.regId)) ∧
+          (∀ j, (e'.ctx.var j).cur.isReg = (e.ctx.var j).cur.isReg) := by
+  have hv := hw.var i hi hreg
+  generalize hvdef : e.ctx.var i = v at hv hnd hfree hsw hreg
   obtain ⟨tok, hget, htv, hform', hdn, _⟩ := hv.tok
   have hform := hform' hnd
   have hg : groupOf v.cur.regType = groupOf v.out.regType := hv.grp
@@ -83,10 +84,10 @@ theorem emitMove_ok (p : Params) (hy : Hyp p) (e : Emit) (M : State) (hw : WF p 
       · simp only [hgg, if_false]
         rw [w_setW_ne _ _ _ _ (fun h => hgg h.symm)]
     -- a variable other than `i` in group `g` sits neither in `outId` nor in `i`'s register
-    have hother : ∀ j, j < p.n → j ≠ i → groupOf (e.ctx.var j).cur.regType = g →
+    have hother : ∀ j, j < p.n → j ≠ i → (e.ctx.var j).cur.isReg = true → groupOf (e.ctx.var j).cur.regType = g →
         (e.ctx.var j).cur.regId ≠ outId ∧ (e.ctx.var j).cur.regId ≠ v.cur.regId := by
-      intro j hj hji hgj
-      have hpj := (hw.var j hj).phys
+      intro j hj hji hrj hgj
+      have hpj := (hw.var j hj hrj).phys
       rw [hgj] at hpj
       have h2 : (e.ctx.var j).cur.regId ≠ v.cur.regId := by
         intro heq; rw [heq, hvphys] at hpj; exact hji (Option.some.inj hpj).symm
@@ -95,7 +96,7 @@ theorem emitMove_ok (p : Params) (hy : Hyp p) (e : Emit) (M : State) (hw : WF p 
       rcases hfree with hf | hf
       · rw [heq, hf] at hpj; exact absurd hpj (by simp)
       · exact h2 (heq.trans hf)
-    refine ⟨M', ⟨?_, ?_, ?_, ?_, ?_, ?_, ?_⟩, ?_, ?_⟩
+    refine ⟨M', ⟨?_, ?_, ?_, ?_, ?_, ?_, ?_⟩, ?_, ?_, ?_⟩  -- len wdlen physlen runs var stk inv
     · show c'.vars.length = p.n
       rw [← hc'def]; simp [Ctx.setVar, Ctx.setW, hcl]
     · show c'.wd.length = 4
@@ -111,12 +112,13 @@ theorem emitMove_ok (p : Params) (hy : Hyp p) (e : Emit) (M : State) (hw : WF p 
         · exact hpl
       · rw [w_setW_ne _ _ _ _ (fun h => hgg h.symm)]; exact hw.physlen g' hg'
     · exact run_push _ _ _ _ _ _ _ _ hw.runs hstep
-    · intro j hj
+    · intro j hj hrj'
       show VarOK p c' M' j (c'.var j)
+      replace hrj' : (c'.var j).cur.isReg = true := hrj'
       by_cases hji : j = i
       · subst hji
         rw [hvar'i, ← hvar'def]
-        refine ⟨hv.out, rfl, hv.outReg, hv.outInit, rfl, hv.grpLt, ho, hv.outLt, ?_, ?_, ?_⟩
+        refine ⟨hv.out, rfl, rfl, hv.outReg, hv.outInit, rfl, hv.grpLt, ho, hv.outLt, ?_, ?_, ?_⟩
         · show physAt _ (groupOf v.out.regType) outId = some j
           rw [hphys']
           by_cases hc : v.cur.regId = outId
@@ -135,12 +137,13 @@ theorem emitMove_ok (p : Params) (hy : Hyp p) (e : Emit) (M : State) (hw : WF p 
         · intro hd hs
           have := hsw hs
           simp [this] at hd
-      · have hvj := hw.var j hj
+      · rw [hvar'j j hji] at hrj'
+        have hvj := hw.var j hj hrj'
         rw [hvar'j j hji]
-        refine ⟨hvj.out, hvj.curReg, hvj.outReg, hvj.outInit, hvj.grp, hvj.grpLt, hvj.curLt, hvj.outLt, ?_, ?_, hvj.fresh⟩
+        refine ⟨hvj.out, hvj.curReg, hvj.notStk, hvj.outReg, hvj.outInit, hvj.grp, hvj.grpLt, hvj.curLt, hvj.outLt, ?_, ?_, hvj.fresh⟩
         · rw [hphys']
           by_cases hgj : groupOf (e.ctx.var j).cur.regType = g
-          · obtain ⟨h1, h2⟩ := hother j hj hji hgj
+          · obtain ⟨h1, h2⟩ := hother j hj hji hrj' hgj
             have := hvj.phys
             rw [hgj] at this ⊢
             simp [h1, h2, this]
@@ -151,9 +154,19 @@ theorem emitMove_ok (p : Params) (hy : Hyp p) (e : Emit) (M : State) (hw : WF p 
           apply get_set_ne
           intro heq
           simp only [vloc, Loc.reg.injEq] at heq
-          exact (hother j hj hji heq.1).1 heq.2
+          exact (hother j hj hji hrj' heq.1).1 heq.2
+    · -- variables still in their stack slot are untouched
+      intro j hj hnr
+      show StkOK p M' j (c'.var j)
+      replace hnr : (c'.var j).cur.isReg = false := hnr
+      have hji : j ≠ i := by
+        intro hh; subst hh; rw [hvar'i, ← hvar'def] at hnr; simp [FuncValue.reg] at hnr
+      rw [hvar'j j hji] at hnr ⊢
+      have hsj := hw.stk j hj hnr
+      exact ⟨hsj.out, hsj.cur, hsj.isStk, hsj.direct, hsj.notDone, hsj.outReg, hsj.outInit, hsj.grpLt, hsj.outLt, by
+        rw [← hsj.tok]; exact get_set_ne _ _ _ _ (by intro h; cases h)⟩
     · intro g' r j' hg' hr hpj
-      show j' < p.n ∧ groupOf (c'.var j').cur.regType = g' ∧ (c'.var j').cur.regId = r
+      show j' < p.n ∧ groupOf (c'.var j').cur.regType = g' ∧ (c'.var j').cur.regId = r ∧ (c'.var j').cur.isReg = true
       replace hpj : physAt c' g' r = some j' := hpj
       rw [hphys'] at hpj
       by_cases hgg : g' = g
@@ -161,35 +174,33 @@ theorem emitMove_ok (p : Params) (hy : Hyp p) (e : Emit) (M : State) (hw : WF p 
         simp only [if_true] at hpj
         by_cases hc : v.cur.regId = outId
         · simp only [hc, ne_eq, not_true_eq_false, if_false] at hpj
-          obtain ⟨a1, a2, a3⟩ := hw.inv _ r j' hg' hr hpj
+          obtain ⟨a1, a2, a3, a4⟩ := hw.inv _ r j' hg' hr hpj
           by_cases hji : j' = i
           · subst hji
             rw [hvar'i, ← hvar'def]
             rw [hvdef] at a3
-            exact ⟨a1, rfl, by simp [FuncValue.reg]; rw [← hc]; exact a3⟩
-          · rw [hvar'j j' hji]; exact ⟨a1, a2, a3⟩
+            exact ⟨a1, rfl, by simp [FuncValue.reg]; rw [← hc]; exact a3, rfl⟩
+          · rw [hvar'j j' hji]; exact ⟨a1, a2, a3, a4⟩
         · simp only [hc, ne_eq, not_false_eq_true, if_true] at hpj
           by_cases hro : r = outId
           · simp only [hro, if_true] at hpj
             have : j' = i := (Option.some.inj hpj).symm
             subst this
             rw [hvar'i, ← hvar'def]
-            exact ⟨hi, rfl, by simp [FuncValue.reg, hro]⟩
+            exact ⟨hi, rfl, by simp [FuncValue.reg, hro], rfl⟩
           · simp only [hro, if_false] at hpj
             by_cases hrc : r = v.cur.regId
             · simp [hrc] at hpj
             · simp only [hrc, if_false] at hpj
-              obtain ⟨a1, a2, a3⟩ := hw.inv _ r j' hg' hr hpj
+              obtain ⟨a1, a2, a3, a4⟩ := hw.inv _ r j' hg' hr hpj
               have hji : j' ≠ i := by
                 intro hh; subst hh; rw [hvdef] at a3; exact hrc a3.symm
-              rw [hvar'j j' hji]; exact ⟨a1, a2, a3⟩
+              rw [hvar'j j' hji]; exact ⟨a1, a2, a3, a4⟩
       · simp only [hgg, if_false] at hpj
-        obtain ⟨a1, a2, a3⟩ := hw.inv g' r j' hg' hr hpj
+        obtain ⟨a1, a2, a3, a4⟩ := hw.inv g' r j' hg' hr hpj
         have hji : j' ≠ i := by
           intro hh; subst hh; rw [hvdef, hg] at a2; exact hgg a2.symm
-        rw [hvar'j j' hji]; exact ⟨a1, a2, a3⟩
-    · show c'.hasStackSrc = false
-      rw [← hc'def]; exact hw.hss
+        rw [hvar'j j' hji]; exact ⟨a1, a2, a3, a4⟩
     · intro j hj hd
       show (c'.var j).done = true
       by_cases hji : j = i
@@ -197,5 +208,10 @@ theorem emitMove_ok (p : Params) (hy : Hyp p) (e : Emit) (M : State) (hw : WF p 
       · rw [hvar'j j hji]; exact hd
     · show (c'.var i).done = _
       rw [hvar'i, ← hvar'def]
+    · intro j
+      show (c'.var j).cur.isReg = _
+      by_cases hji : j = i
+      · subst hji; rw [hvar'i, ← hvar'def, hvdef, hreg]; rfl
+      · rw [hvar'j j hji]
 
 end AsmjitVerif.C06S
